@@ -9,7 +9,7 @@ from .. import tlc, runner, corpus, profiles
 C09_INV = ["Axioms", "SumOfGroups", "BracketF", "BracketU", "ChargeRows", "PiLine", "ConfPiLine", "ChargeGrid"]
 C09_DIAG = ["BisectConforms"]
 C10_INV = ["GridExact", "ChargeGrid", "FoldSum", "LinkGroups", "LinkTotal", "Optimum", "Range80", "StabRange",
-           "FoldRows", "OptLine"]
+           "FoldRows", "OptLine", "ChargeRows"]
 
 GRIDS_Q = [("0", "14", "0.1"), ("0", "14", "0.5"), ("2", "8", "0.25"), ("3", "9", "0.05"), ("0", "14", "1"), ("0", "3", "0.125"),
            ("6", "7", "0.025")]
@@ -26,6 +26,12 @@ def inputs(ctx):
            ("sample-issue-140", corpus.test_pdb_text("sample-issue-140")),
            ("frag-3SGB-E0+15", corpus.fragment("3SGB", "E", 0, 15)),
            ("frag-1HPX-A6+4", corpus.fragment("1HPX", "A", 6, 4)), ("frag-4DFR-A30+5", corpus.fragment("4DFR", "A", 30, 5))]
+    # groups whose model pKa is a customised one (custom_model_pkas: by residue and atom name): a tyrosine under a
+    # parameter file that customises TYR-OH, and the phosphate / ring nitrogens of a nucleotide under the shipped file
+    from . import c02
+    pf = c02.param_file({"custom_model_pkas TYR-OH": "9.00", "custom_model_pkas LYS-NZ": "11.20"}, "custom-model-pka")
+    out.append(("frag-1HPX-A50+12 [custom TYR-OH, LYS-NZ]", corpus.fragment("1HPX", "A", 50, 12), ["-p", pf]))
+    out.append(("frag-1HPX-A20+8+dA", nucleotide_next_to(corpus.fragment("1HPX", "A", 20, 8))))
     # multi-conformation inputs whose conformations give different pKa values (profiles are functions of AVR)
     from . import c08
     multi = dict(c08.constructed(ctx))
@@ -36,6 +42,28 @@ def inputs(ctx):
         out += [("frag-1FTJ-A100+30", corpus.fragment("1FTJ-Chain-A", "A", 100, 30)),
                 ("frag-4DFR-A0+25", corpus.fragment("4DFR", "A", 0, 25))]
     return out
+
+
+def nucleotide_next_to(text):
+    """The structure plus a deoxyadenosine 5'-phosphate (residue DA: P, OP1, OP2, O5', sugar, adenine) placed 12 A from
+    its centroid - the shipped parameter file customises the model pKa of DA-OP1/OP2/N1/N3/N7."""
+    from .. import pdbio
+    lines = corpus.body(text)
+    cx, cy, cz = corpus.centroid(lines)
+    # idealised coordinates (A) of dAMP, B-DNA-like; only distances matter here
+    at = [("P", "P", 0.000, 0.000, 0.000), ("OP1", "O", 1.480, 0.000, 0.000), ("OP2", "O", -0.560, 1.370, 0.000),
+          ("O5'", "O", -0.560, -0.780, 1.260), ("C5'", "C", -1.940, -1.130, 1.440), ("C4'", "C", -2.200, -1.770, 2.790),
+          ("O4'", "O", -1.800, -0.850, 3.820), ("C3'", "C", -1.420, -3.060, 3.040), ("O3'", "O", -2.250, -4.000, 3.720),
+          ("C2'", "C", -0.270, -2.610, 3.930), ("C1'", "C", -0.830, -1.390, 4.660), ("N9", "N", 0.150, -0.370, 5.040),
+          ("C8", "C", 1.420, -0.250, 4.550), ("N7", "N", 2.060, 0.790, 5.020), ("C5", "C", 1.170, 1.380, 5.890),
+          ("C6", "C", 1.240, 2.500, 6.730), ("N6", "N", 2.350, 3.230, 6.840), ("N1", "N", 0.160, 2.830, 7.460),
+          ("C2", "C", -0.920, 2.060, 7.340), ("N3", "N", -1.110, 0.980, 6.590), ("C4", "C", -0.010, 0.690, 5.880)]
+    out = list(lines)
+    for k, (nm, el, x, y, z) in enumerate(at):
+        out.append(pdbio.atom_line("ATOM", 9000 + k, nm, " ", "DA", "N", 1, " ", int(cx + 12000 + 1000 * x), int(cy + 1000 * y),
+                                   int(cz + 1000 * z), elem=el))
+    out.append(corpus.TER)
+    return corpus.join(out)
 
 
 def real_records(ctx):
@@ -59,8 +87,9 @@ def real_records(ctx):
             if len(x[1]) > 60000 and float(g[2]) < 0.05:
                 g = grids[1]
             combos.append((x, g, rng.choice(wins)))
-    for (name, text), g, w in combos:
-        r = runner.run(text, ["-q", "-g", *g, "-w", *w])
+    for x_, g, w in combos:
+        name, text = x_[0], x_[1]
+        r = runner.run(text, ["-q", "-g", *g, "-w", *w] + list(x_[2] if len(x_) > 2 else []))
         ctx.count()
         if r.exc is not None:
             meta.append({"input": name, "grid": g, "window": w, "exc": repr(r.exc)})
@@ -74,6 +103,11 @@ def real_records(ctx):
             continue
         recs.append(rec)
         meta.append({"input": name, "grid": g, "window": w, "groups": len(rec["grp"]), "nodes": len(rec["ph"])})
+        try:
+            from .. import pkafile
+            meta[-1]["_layout"] = pkafile.record(r, name)
+        except Exception:  # noqa  (the layout is judged where it can be recorded)
+            pass
     return recs, meta
 
 
